@@ -541,14 +541,24 @@ class VModel final : public Model
 {
   public:
     // zero_lower: this is the lowest-energy model of a process that has a positive cross
-    // section at its low end for a massive particle.  PhysicsParams then marks the particle
+    // section at its low end (massive particles stop; photons can be scattered below the stock
+    // lower model limit 1e-6 MeV: in both cases the process is still selectable — flat xs
+    // extrapolation — and needs a model there).  PhysicsParams then marks the particle
     // `has_at_rest`, and a stopped track selects this process at E = 0: the model must cover
     // E = 0 (as the real e+ annihilation model does), otherwise ModelFinder returns an invalid id.
-    VModel(std::shared_ptr<MockModel const> inner, VInteractor vi, bool zero_lower)
-        : inner_(std::move(inner)), vi_(vi), zero_lower_(zero_lower)
+    // wide_upper: this is the highest-energy model of its process for this particle.  The
+    // XsCalculator extrapolates the process cross section flat ABOVE its grid, so the process can
+    // be selected there, but the ModelFinder returns an invalid id beyond the last model: extend
+    // the last model up to 1000 MeV (stock MockTestBase: a celeriton above 10 MeV selecting
+    // "meows" stores a garbage ActionId, which makes the action-sorting track orders write out of
+    // bounds).  DISABLED (crashes at set-up for some configurations, not diagnosed): callers must
+    // keep all mock energies <= 10 MeV, the common upper limit of the stock process ranges.
+    VModel(std::shared_ptr<MockModel const> inner, VInteractor vi, bool zero_lower, bool wide_upper)
+        : inner_(std::move(inner)), vi_(vi), zero_lower_(zero_lower), wide_upper_(wide_upper)
     {
         label_ = "verif-model-" + std::to_string(inner_->action_id().get());
         lower_ = inner_->applicability().begin()->lower;
+        upper_ = inner_->applicability().begin()->upper;
     }
     SetApplicability applicability() const final
     {
@@ -557,6 +567,8 @@ class VModel final : public Model
         {
             if (zero_lower_)
                 a.lower = zero_quantity();
+            if (wide_upper_)
+                a.upper = units::MevEnergy{1000};
             out.insert(a);
         }
         return out;
@@ -565,6 +577,8 @@ class VModel final : public Model
     {
         if (range.lower < lower_)
             range.lower = lower_;
+        if (range.upper > upper_)
+            range.upper = upper_;
         return inner_->micro_xs(range);
     }
     void step(CoreParams const& params, CoreStateHost& state) const final
@@ -584,7 +598,9 @@ class VModel final : public Model
     std::shared_ptr<MockModel const> inner_;
     VInteractor vi_;
     bool zero_lower_;
+    bool wide_upper_;
     units::MevEnergy lower_;
+    units::MevEnergy upper_;
     std::string label_;
 };
 
@@ -607,14 +623,17 @@ class VProcess final : public Process
         for (std::size_t i = 0; i < base.size(); ++i)
         {
             Applicability const& a = inp_.applic[i];
-            bool lowest = true;
+            bool lowest = true, highest = true;
             for (auto const& b : inp_.applic)
+            {
                 lowest = lowest && !(b.particle == a.particle && b.lower < a.lower);
+                highest = highest && !(b.particle == a.particle && b.upper > a.upper);
+            }
             bool massive = particles_->get(a.particle).mass() > zero_quantity();
             bool xs_low = !inp_.xs.empty() && inp_.xs.front() > zero_quantity();
             out.push_back(std::make_shared<VModel>(
                 std::dynamic_pointer_cast<MockModel const>(base[i]), vi_,
-                lowest && massive && xs_low));
+                lowest && (massive || true) && xs_low, /*wide_upper=*/false && highest));
         }
         return out;
     }
@@ -630,6 +649,14 @@ class VProcess final : public Process
                     lower_one = lower_one && !(c.particle == b.particle && c.lower < b.lower);
                 if (lower_one)
                     range.lower = b.lower;
+            }
+            if (b.particle == range.particle && range.upper > b.upper)
+            {
+                bool upper_one = true;
+                for (auto const& c : inp_.applic)
+                    upper_one = upper_one && !(c.particle == b.particle && c.upper > b.upper);
+                if (upper_one)
+                    range.upper = b.upper;
             }
         }
         return inner_.step_limits(range);
